@@ -2423,7 +2423,7 @@ IDIOM_FEATURES = [
     'idiom_linked_list', 'idiom_matrix_slices', 'idiom_bytes_compare', 'idiom_nil_slice', 'idiom_iface_equality',
     'idiom_map_of_maps', 'idiom_func_map', 'idiom_rune_parse', 'idiom_elem_method', 'idiom_embedded_iface',
     'idiom_bare_return', 'idiom_slice_of_aggregates', 'idiom_label_break_switch', 'idiom_map_misc_keys',
-    'idiom_struct_conversion',
+    'idiom_struct_conversion', 'idiom_alloc_churn', 'idiom_tree_build',
 ]
 FEATURES.extend(IDIOM_FEATURES)
 
@@ -2603,6 +2603,22 @@ def _g_idioms(self, grp, env):
         elif k == 'struct_conversion':
             grp.decls.append((P + 'SC2', 'type %sA1 struct {\n\tx %s\n\ts string\n}\n\ntype %sA2 struct {\n\tx %s\n\ts string\n}' % (P, t, P, t)))
             st.append(S(['%sa := %sA1{{0}, "cv"}' % (u, P), '%sb := %sA2(%sa)' % (u, P, u), '%sb.x += {1}' % u, '%sc := %sA1(%sb)' % (u, P, u), 'println("structconv", %sa.x, %sb.x, %sc.x, %sc.s, %sc == %sa)' % (u, u, u, u, u, u)], [T(), T()]))
+        elif k == 'alloc_churn':
+            # many short-lived slices / strings, a few retained in a ring: exercises allocation, release and reuse
+            n, r = self.rng.randint(50, 300), self.pick([3, 5, 8])
+            st.append(S(['var %sring [%d][]%s' % (u, r, t), 'var %sstr [%d]string' % (u, r), 'var %stot %s' % (u, t), 'for i := 0; i < %d; i++ {' % n,
+                         '\ts := make([]%s, i%%%d+1)' % (t, self.pick([5, 17, 33])), '\tfor j := range s {', '\t\ts[j] = %s(i*j) + {0}' % t, '\t}', '\t%sring[i%%%d] = s' % (u, r),
+                         '\tw := "x"', '\tfor j := 0; j < i%%5; j++ {', '\t\tw += "yz"', '\t}', '\told := %sstr[i%%%d]' % (u, r), '\t%sstr[(i*3)%%%d] = w + old[:len(old)/2]' % (u, r),
+                         '\tif len(%sstr[(i*3)%%%d]) > 40 {' % (u, r), '\t\t%sstr[(i*3)%%%d] = "r"' % (u, r), '\t}', '}',
+                         'for i := 0; i < %d; i++ {' % r, '\tfor _, v := range %sring[i] {' % u, '\t\t%stot = %stot*%s(7) + v' % (u, u, t), '\t}', '\t%stot += %s(len(%sstr[i]))' % (u, t, u), '}',
+                         'println("churn", %stot)' % u], [self.nonconst(env, t, T())]))
+        elif k == 'tree_build':
+            grp.decls.append((P + 'TB', 'type %sKids []*%sTn\n\ntype %sTn struct {\n\tv %s\n\tname string\n\tkids %sKids\n\tm map[int32]string\n}\n\n'
+                              'func %sbuild(d int32, k %s, tag string) *%sTn {\n\tn := &%sTn{v: k + %s(d), name: tag + "n", m: map[int32]string{}}\n\tif d > 0 {\n\t\tfor i := int32(0); i < 3; i++ {\n'
+                              '\t\t\tc := %sbuild(d-1, k*%s(3)+%s(i), n.name)\n\t\t\tn.kids = append(n.kids, c)\n\t\t\tn.m[i] = c.name\n\t\t}\n\t}\n\treturn n\n}\n\n'
+                              'func %ssum(n *%sTn) %s {\n\tt := n.v + %s(len(n.name)) + %s(len(n.m))\n\tfor _, c := range n.kids {\n\t\tt = t*%s(3) + %ssum(c)\n\t}\n\treturn t\n}'
+                              % (P, P, P, t, P, p, t, P, P, t, p, t, t, p, P, t, t, t, t, p)))
+            st.append(S(['for r := 0; r < %d; r++ {' % self.rng.randint(1, 3), '\ttr := %sbuild(%d, {0}, "t")' % (p, self.rng.randint(1, 4)), '\tprintln("tree", %ssum(tr), len(tr.kids))' % p, '}'], [T()]))
         else:
             raise ValueError(name)
     st.append(S('%s ^= {0}' % pool_t, [T()]))
